@@ -14,7 +14,7 @@ from typing import Any
 
 from common import CompResult, Disagreement, Violation, h, run_driver, show_nat_list
 
-RUNNING, WAITING, INPROTO, DONE, LOCKWAIT = "running", "waiting", "inproto", "done", "lockwait"
+RUNNING, WAITING, INPROTO, DONE, LOCKWAIT, PAUSED = "running", "waiting", "inproto", "done", "lockwait", "paused"
 
 
 class Ctl:
@@ -29,6 +29,36 @@ class Ctl:
         self.preempt = True
         self.inject: tuple[int, bool] | None = None   # release the protocol at the k-th pre-emption point
         self.points = 0
+        # pre-emption of the MAIN thread: it stops at its k-th synchronisation point (lock enter/exit, event set/clear/wait)
+        # after being armed and lets the receiver thread run
+        self.main_pause_at: int | None = None
+        self.main_points = 0
+        self.resume_main = False
+        self.paused_at: str | None = None
+
+    def main_point(self, where: str) -> None:
+        """called by the main thread at each of its synchronisation points"""
+        if self.main_pause_at is None or threading.get_ident() != self.main_ident:
+            return
+        self.main_points += 1
+        if self.main_points != self.main_pause_at:
+            return
+        self.main_pause_at = None
+        with self.cv:
+            self.paused_at = where
+            self.resume_main = False
+            self.state = PAUSED
+            self.cv.notify_all()
+            self.cv.wait_for(lambda: self.resume_main)
+            self.state = RUNNING
+            self.cv.notify_all()
+
+    def resume(self) -> None:
+        with self.cv:
+            if self.state == PAUSED:
+                self.resume_main = True
+                self.cv.notify_all()
+                self.cv.wait_for(lambda: self.state != PAUSED)
 
     def release(self, stop: bool) -> bool:
         with self.cv:
@@ -60,6 +90,7 @@ class FakeEvent:
         self.inner = threading.Event()
 
     def set(self) -> None:
+        self.ctl.main_point("event.set")
         self.flag = True
         # a waiter is about to run: mark it so before it can be observed
         with self.ctl.cv:
@@ -68,10 +99,12 @@ class FakeEvent:
         self.inner.set()
 
     def clear(self) -> None:
+        self.ctl.main_point("event.clear")
         self.flag = False
         self.inner.clear()
 
     def wait(self) -> None:
+        self.ctl.main_point("event.wait")
         if self.flag:
             return
         self.ctl.set(WAITING)
@@ -85,9 +118,15 @@ class FakeRLock:
         self.ctl = ctl
         self.lock = threading.RLock()
         self.depth: dict[int, int] = {}
+        self.owner: int | None = None
 
     def __enter__(self) -> "FakeRLock":
         me = threading.get_ident()
+        if me == self.ctl.main_ident:
+            self.ctl.main_point("lock.enter")
+        elif self.owner == self.ctl.main_ident and self.ctl.state == PAUSED:
+            # the paused main thread holds the queue lock: the receiver has to wait for it, so the main thread goes on
+            self.ctl.resume()
         if me == self.ctl.main_ident and not self.lock.acquire(blocking=False):
             # the receiver thread is inside its critical section: the main thread waits for the lock
             self.ctl.set(LOCKWAIT)
@@ -95,6 +134,7 @@ class FakeRLock:
         elif me != self.ctl.main_ident:
             self.lock.acquire()
         self.depth[me] = self.depth.get(me, 0) + 1
+        self.owner = me
         if (self.depth[me] == 1 and self.ctl.preempt and me != self.ctl.main_ident and self.ctl.main_ident is not None
                 and self.ctl.inject is not None and self.ctl.inject[0] == 0):
             # pre-emption point *inside* the receiver's critical section: the main thread is let go and runs until it
@@ -113,7 +153,14 @@ class FakeRLock:
             with self.ctl.cv:
                 if self.ctl.state == LOCKWAIT:
                     self.ctl.state = RUNNING      # the waiting main thread is about to get the lock
+        if outer:
+            self.owner = None
         self.lock.release()
+        if outer and me == self.ctl.main_ident:
+            self.ctl.main_point("lock.exit")
+        if outer and me != self.ctl.main_ident and self.ctl.state == PAUSED:
+            # the receiver has completed a critical section while the main thread was pre-empted: now the main thread goes on
+            self.ctl.resume()
         if outer and self.ctl.preempt and me != self.ctl.main_ident and self.ctl.main_ident is not None:
             # let the main thread run until it blocks again
             self.ctl.settle()
@@ -284,6 +331,29 @@ class RealWorker:
         elif op == "steal":
             idx = [] if ws[1] == "-" else [int(x) for x in ws[1].split(",")]
             self.inter.handle_command(("steal", {"indices": idx}))
+        elif op == "pmain":
+            # `pmain b k cmd arg`: the protocol returns and the main thread is pre-empted at its k-th synchronisation point;
+            # the receiver then executes `cmd`; the main thread goes on when the receiver needs the lock it holds, when the
+            # receiver has left its first critical section, or at the end of the command
+            with self.ctl.cv:
+                if self.ctl.state != INPROTO:
+                    return "disabled"
+                self.ctl.main_points = 0
+                self.ctl.main_pause_at = int(ws[2])
+                self.ctl.stop_flag = ws[1] == "1"
+                self.ctl.release_proto = True
+                self.ctl.state = RUNNING
+                self.ctl.cv.notify_all()
+            self.ctl.settle()
+            self.ctl.main_pause_at = None
+            idx = [] if ws[4] == "-" else [int(x) for x in ws[4].split(",")]
+            if ws[3] == "put":
+                self.inter.handle_command(("runtests", {"indices": idx}))
+            elif ws[3] == "steal":
+                self.inter.handle_command(("steal", {"indices": idx}))
+            else:
+                self.inter.handle_command(("shutdown", {}))
+            self.ctl.resume()
         elif op == "main":
             with self.ctl.cv:
                 if self.ctl.state != INPROTO:
@@ -386,6 +456,22 @@ def gen(rng: random.Random, res: CompResult) -> tuple[list[str], list[str]]:
             elif r < 0.62:
                 do("shutdown")
                 shut = True
+            elif r < 0.74 and rw.ctl.state == INPROTO:
+                # the protocol returns and the main thread is pre-empted inside its next `get()` while a command arrives
+                k = rng.randrange(1, 6)
+                c = rng.random()
+                if c < 0.5 and nxt < RealWorker.NITEMS - 6:
+                    n = rng.choice([1, 1, 2, 3])
+                    do(f"pmain 0 {k} put {show_nat_list(range(nxt, nxt + n))}")
+                    nxt += n
+                elif c < 0.75:
+                    do(f"pmain 0 {k} shutdown -")
+                    shut = True
+                else:
+                    req = queued[-rng.randrange(1, len(queued) + 1):] if queued else [rng.randrange(max(1, nxt))]
+                    do(f"pmain 0 {k} steal {show_nat_list(req)}")
+                res.hit(f"pmain:{rw.ctl.paused_at}")
+                rw.ctl.paused_at = None
             else:
                 out = do(f"main {1 if rng.random() < 0.05 else 0}")
                 if out == "disabled":
@@ -408,6 +494,12 @@ def monitors(ops: list[str], impl: list[str], res: CompResult) -> None:
     obs_lines = [l for l in impl if l.startswith("pc=")]
     if not obs_lines:
         return
+    for l, o in zip(impl, ops):
+        if l.startswith("pc=wait") and " q=-" not in l:
+            for p in ("C02", "C05"):
+                res.violations.append(Violation(p, "worker.queue", f"after `{o}` the worker's main thread is blocked waiting for the queue although it holds "
+                                                f"{l.split(' q=')[1].split()[0]} (lost wake-up): it never runs them and never finishes", "lost-wakeup", ops, {"obs": l}))
+            return
     last = obs_lines[-1]
     if "ERR=" in last:
         res.violations.append(Violation("C05", "worker.queue", "the worker loop raised", "worker-loop-exception", ops, {"last": last}))
@@ -423,6 +515,8 @@ def monitors(ops: list[str], impl: list[str], res: CompResult) -> None:
     for o in ops:
         if o.startswith("put ") and o.split()[1] != "-":
             received += [int(x) for x in o.split()[1].split(",")]
+        if o.startswith("pmain ") and o.split()[3] == "put" and o.split()[4] != "-":
+            received += [int(x) for x in o.split()[4].split(",")]
     ran_idx = [int(i) for i, _ in ran]
     # C05b: consecutive announcements
     for (i, a), (j, _) in zip(ran, ran[1:]):
